@@ -20,8 +20,9 @@ def main():
         if not b: return job, None
         cases = []
         r = vlib.Rng(1000 * k + p)
-        for H in (3, 4, 5, 6):
-            N = {3: 300, 4: 800, 5: 1500, 6: 2200}[H]
+        sparse = len(sys.argv) > 1 and sys.argv[1] == "sparse"
+        for H in ((4, 5, 6) if sparse else (3, 4, 5, 6)):
+            N = 24 if sparse else {3: 300, 4: 800, 5: 1500, 6: 2200}[H]
             for rep in range(10):
                 box = boxes[r.below(3)]
                 cases.append((H, "num %d %d %d 0 %d %d %r %r %r %r %d" % (H, r.choice([7, 30, 100]), r.below(2), N, r.below(100000), box[0], box[1], box[2], box[3], r.below(2))))
@@ -39,6 +40,6 @@ def main():
         for job, tab in ex.map(one, jobs):
             out["%d:%d" % job] = tab
             print(job, tab, flush=True)
-    json.dump(out, open("/tmp/calib_num.json", "w"), indent=1)
+    json.dump(out, open("/tmp/calib_num_%s.json" % ("sparse" if len(sys.argv) > 1 else "dense"), "w"), indent=1)
 
 main()
